@@ -243,7 +243,8 @@ func checkCase(c Case) fw.Outcome {
 		return datumOf(lv), nil
 	}}
 	start := tr.At(tree.ID{{Name: "ctx"}})
-	res := xpath.NewCtxFromCurrent(context.Background(), m, start).Run()
+	// the debug trace of a context must not change what it computes: a third of the cases run with it on
+	res := xpath.NewCtxFromCurrent(context.Background(), m, start).SetDebug(len(src)%3 == 0).Run()
 	if msg := compareResult(res, want); msg != "" {
 		out.Violation = fmt.Sprintf("expression %q with leaves %v: %s", src, c.Leaves, msg)
 		return out
